@@ -213,3 +213,43 @@ func H_C14_Fast_Grow()    { c14Hist(1, 0, c14Grow) }
 
 func H_C14_Safe_ForkPool_Thorough() { c14Hist(0, 2, c14Three) }
 func H_C14_Fast_ForkPool_Thorough() { c14Hist(1, 2, c14Three) }
+
+// a decode that FAILS half-way (valid fields followed by a truncated one) must not leave anything behind in
+// the pooled result that the next decode of the same Decoder could expose
+func c14HistErr(mode, policy int) {
+	verifPoolPolicy(policy)
+	opts, fast := c14Options(mode)
+	dec, err := NewDecoder(c14Def(), opts...)
+	verifAssert2(err == nil, dec != nil, "NewDecoder accepts the definition and options")
+	verifShareRoot(dec)
+	// cycle 0: a valid message, so that the pool holds a used result
+	m0 := c14Build(0, 2, 1, false)
+	r, err := dec.Decode(m0.bytes)
+	verifAssert2(err == nil, r != nil, "Decode accepts a well-formed message")
+	_ = c14Check(r, m0, fast)
+	verifAssert(r.Close() == nil, "Close")
+	// cycle 1: well-formed fields followed by a truncated length-delimited field
+	bad := c14Build(1, 2, 1, false)
+	trunc := nondetInt("trunc_tag")
+	verifAssume(trunc >= 1)
+	verifAssume(trunc <= 3)
+	broken := append(append([]byte{}, bad.bytes...), byte(verifConcretize(trunc))<<3|2, 0x05, 0x61)
+	r, err = dec.Decode(broken)
+	verifAssert2(err != nil, r == nil, "a truncated message is rejected")
+	// cycle 2: a smaller valid message must expose only its own data
+	m2 := c14Build(2, 1, 1, false)
+	r, err = dec.Decode(m2.bytes)
+	verifAssert2(err == nil, r != nil, "Decode accepts a well-formed message after a failed one")
+	_ = c14Check(r, m2, fast)
+	verifAssert(r.Close() == nil, "Close")
+	// and an input that lacks the tags altogether
+	m3 := c14Build(3, 0, 0, true)
+	r, err = dec.Decode(m3.bytes)
+	verifAssert2(err == nil, r != nil, "Decode accepts a message without the repeated tags")
+	_ = c14Check(r, m3, fast)
+	verifAssert(r.Close() == nil, "Close")
+	verifReach("end")
+}
+
+func H_C14_Safe_AfterError() { c14HistErr(0, 0) }
+func H_C14_Fast_AfterError() { c14HistErr(1, 0) }
